@@ -99,7 +99,7 @@ inductive TStep (t : Nat) : Instr → G → G → Prop
   | armClosed (s own ok cl g) : g.flag fCLOSED = true → TStep t (.arm s own ok cl) g (g.move t cl)
   | ioOk (ok err g) : TStep t (.io ok err) g (g.move t ok)
   | ioErr (ok err g) : TStep t (.io ok err) g (g.move t err)
-  | spawn (e n g) : TStep t (.spawn e n) g { (g.move t n) with pcs := (g.move t n).pcs ++ [e] }
+  | spawn (e n g) : TStep t (.spawn e n) g { (g.move t n) with pcs := (g.move t n).pcs ++ [e], born := g.born ++ [g.flag] }
   | signal (ch n g) : TStep t (.signal ch n) g { (g.move t n) with sig := upd g.sig ch true }
   | awaitOk (ch ok to g) : g.sig ch = true → TStep t (.await ch ok to) g (g.move t ok)
   | awaitTimeout (ch ok to g) : TStep t (.await ch ok to) g (g.move t to)
